@@ -1,4 +1,4 @@
-/* C07-corpus: known C07:ulong-llong-common-type
+/* C07-corpus: pass   (was known C07:ulong-llong-common-type until /repo 584db93a)
    C11 6.3.1.8: unsigned long x long long -> unsigned long long (c2mir: unsigned long; same width,
    visible through _Generic) */
 #include <stdio.h>
